@@ -41,6 +41,8 @@ access_log stdio:{W}/log_u.log vu
 access_log stdio:{W}/log_s.log vs
 access_log stdio:{W}/log_d.log vd
 access_log stdio:{W}/log_r.log vr
+access_log stdio:{W}/log_b.log squid
+log_mime_hdrs on
 """
 
 Q = r'((?:[^"\\\r\n]|\\.)*)'
@@ -212,7 +214,7 @@ http_access deny p_deny
 http_access deny p_auth !authed
 """
     lab = Lab(a, res, handler=handler, conf=conf + LOGFORMATS, access_log="", start=False)
-    for q in "qmusdr":
+    for q in "qmusdrb":
         try:
             os.unlink(f"{lab.sq.work}/log_{q}.log")
         except OSError:
@@ -243,6 +245,11 @@ http_access deny p_auth !authed
             method = "GET"
         v1 = hostile(r) if h1 is None else h1
         v2 = hostile(r, maxlen=r.choice([60, 400, 1500, 5000]))
+        if random.Random(f"C34:big:{rid}").random() < 0.02:
+            # a header block whose quoted form is larger than the log module's buffer (64 KB): built-in formats with
+            # log_mime_hdrs write such a record in more than one piece
+            v2 = b"%" * random.Random(f"C34:bigl:{rid}").choice([23000, 30000, 40000])
+            res.count("big_header_requests")
         rec = {"h1": v1.strip(WS), "h2": v2.strip(WS), "method": method.encode(), "kind": kind, "user": None}
         hs = [("X-Verif-Req", rid), ("X-Verif-H1", None), ("X-Verif-H2", None)]
         if kind in ("auth_ok", "auth_bad"):
@@ -427,6 +434,27 @@ http_access deny p_auth !authed
         except OSError:
             res.harness_failure.append(f"log_{q}.log missing")
             return
+    # ---- the built-in 'squid' format with log_mime_hdrs (a record is written in two pieces): same transactions, so the same
+    # number of lines as any custom-format log, every line a whole record
+    try:
+        bdata = open(f"{lab.sq.work}/log_b.log", "rb").read()
+    except OSError:
+        res.harness_failure.append("log_b.log missing")
+        return
+    blines = bdata.split(b"\n")[:-1] if bdata else []
+    res.count("records_b", len(blines))
+    if bdata and not bdata.endswith(b"\n"):
+        res.violation("log-not-newline-terminated:b", f"log_b does not end in a newline: ...{bdata[-120:]!r}", wit0)
+    nd = files["d"].count(b"\n")
+    if len(blines) != nd:
+        res.violation("record-count-mismatch:b", f"the built-in format log (log_mime_hdrs on) has {len(blines)} lines, the custom-format logs of the same transactions have {nd}", wit0)
+    bre = re.compile(rb"^\d+\.\d{3} +\d+ \S+ \S+/\d{3} \d+ \S+ \S+ .* \[.*\] \[.*\]$", re.S)
+    for ln in blines:
+        if b"\r" in ln:
+            res.violation("raw-CR-in-record:b", f"record contains a raw CR: {ln[:300]!r}", wit0)
+        elif not bre.match(ln):
+            res.violation("line-is-not-a-whole-record:b", f"log_b line is not one whole built-in-format record (timestamp ... [request headers] [reply headers]): {ln[:200]!r} ... {ln[-80:]!r} ({len(ln)} bytes)", wit0)
+            break
     parsed = {}      # q -> {id: groups}
     for q, data in files.items():
         if data and not data.endswith(b"\n"):
